@@ -128,8 +128,10 @@ func (c *syncMap) DeleteAll(ctx context.Context) {
 	cnt := 0
 
 	c.data.Range(func(key, _ interface{}) bool {
-		c.data.Delete(key)
-		cnt++
+		// Entry may have been removed concurrently, only actual removals are counted.
+		if _, loaded := c.data.LoadAndDelete(key); loaded {
+			cnt++
+		}
 
 		return true
 	})
